@@ -2,7 +2,8 @@
 //! (Also the base of c12.rs, which adds its own generator.)
 //!
 //! case: {"mode": "beh"|"snap"|"rx"|"cp", "ic": bool, "unique": bool, "ops": [op..], "hay": [string..]}
-//!   op  = ["i", pat, id, v] | ["r", id] | ["k", [id..]] | ["m", [id..], delta] | ["c", limit, level|null]
+//!   op  = ["i", pat, id, v] | ["r", id] | ["k", [id..]] | ["m", [id..], delta] | ["u", pat, delta] | ["c", limit, level|null]
+//!         ("u": get_mut(pattern) and `*v += delta` on every value returned)
 //!         ("m": retain with a closure that adds delta to the value through its `&mut V` and keeps the listed ids)
 //!   pat = [["l", text] | ["g", body] ..]   literal text goes through regex::escape, a group is "(" body ")"
 //!   unique=true: UniqueRegexTreeMap (insert under the rendered pattern; "r"/"k" carry rendered patterns)
@@ -12,6 +13,8 @@
 //!   real: like beh plus {inv: true, contents: true}; the case carries "snaps" = verif_snapshot() after every op,
 //!         produced by `gen` running the real code; the driver evaluates the invariant and the model's find/get/len on
 //!         that very state.  `run` re-checks that the embedded snapshots are the current ones (else the case is stale: invalid).
+//!   trace: after the last op, per haystack the Trace returned by trace(haystack), parsed from its Debug rendering:
+//!         {regex, count, matched, children, values(sorted)}
 //!   rx  : per distinct pattern {p, ok, m[per haystack], pre[[k, ok, m[..]] per scanner boundary k]} (regex crate)
 //!   cp  : [common_prefix_char_size(a,b), get_prefix_with_char_size(a,n), common_prefix(a,b)]
 //! Oracle evaluated on the implementation alone (beh, in-domain cases): find == linear scan of the live
@@ -319,6 +322,10 @@ pub fn history(pool: &[Pat], unique: bool, rng: &mut Prng, nops: usize, cache_w:
         } else if r < cache_w + 3 && !used.is_empty() {
             let id = if rng.chance(4, 5) { rng.pick(&used).clone() } else { rng.pick(&all_ids).clone() };
             ops.push(json!(["r", id]));
+        } else if r == 19 && !used.is_empty() && rng.chance(1, 2) {
+            // get_mut(pattern) + update
+            let pi = rng.below(pool.len());
+            ops.push(json!(["u", pat_json(&pool[pi]), rng.range(1, 9) * 1000]));
         } else if r < cache_w + 5 && !used.is_empty() {
             let keep: Vec<String> = all_ids.iter().filter(|_| rng.chance(3, 5)).cloned().collect();
             if rng.chance(1, 3) {
@@ -430,6 +437,7 @@ pub fn real_snapshots(ic: bool, unique: bool, ops: &[Value]) -> Option<Vec<Value
             }
             Op::Keep(keep) => tree.retain(keep),
             Op::Mut(keep, delta) => tree.retain_mut(keep, *delta),
+            Op::Upd(p, delta) => tree.update(p, *delta),
             Op::Cache(limit, level) => {
                 tree.cache(*limit, *level);
             }
@@ -515,7 +523,7 @@ fn gen(args: &Args, emit: &mut dyn FnMut(Value)) {
         let ops = history(&pool, unique, &mut rng, nops, 3);
         let hay = haystacks(&pool, &mut rng, 8);
         if i % 3 == 0 {
-            emit_modes(emit, ic, unique, &ops, &hay, false, &["beh", "snap", "real", "rx"]);
+            emit_modes(emit, ic, unique, &ops, &hay, false, &["beh", "snap", "real", "rx", "trace"]);
         } else {
             emit_modes(emit, ic, unique, &ops, &hay, false, &["beh", "snap", "real"]);
         }
@@ -566,6 +574,26 @@ impl Tree {
         match self {
             Tree::Multi(t) => t.retain(&f),
             Tree::Unique(t) => t.retain(&f),
+        }
+    }
+    fn update(&mut self, p: &str, delta: u64) {
+        match self {
+            Tree::Multi(t) => {
+                for v in t.get_mut(p) {
+                    *v += delta;
+                }
+            }
+            Tree::Unique(t) => {
+                if let Some(v) = t.get_mut(p) {
+                    *v += delta;
+                }
+            }
+        }
+    }
+    fn trace_debug(&self, h: &str) -> String {
+        match self {
+            Tree::Multi(t) => format!("{:?}", t.trace(h)),
+            Tree::Unique(t) => format!("{:?}", t.trace(h)),
         }
     }
     fn cache(&mut self, limit: u64, level: Option<u64>) -> u64 {
@@ -623,6 +651,7 @@ pub enum Op {
     Rem(String),
     Keep(BTreeSet<String>),
     Mut(BTreeSet<String>, u64),
+    Upd(String, u64),
     Cache(u64, Option<u64>),
 }
 
@@ -656,6 +685,14 @@ pub fn parse_ops(case: &Value, unique: bool) -> Option<(Vec<Op>, Vec<Pat>)> {
                     s.insert(x.as_str()?.to_string());
                 }
                 ops.push(Op::Mut(s, a[2].as_u64()?));
+            }
+            "u" if a.len() == 3 => {
+                let p = parse_pat(&a[1])?;
+                let r = render(&p);
+                if !pats.iter().any(|q| render(q) == r) {
+                    pats.push(p);
+                }
+                ops.push(Op::Upd(r, a[2].as_u64()?));
             }
             "c" if a.len() == 3 => {
                 let level = if a[2].is_null() { None } else { Some(a[2].as_u64()?) };
@@ -754,6 +791,107 @@ pub fn domain(pats: &[Pat]) -> Dom {
         }
     }
     d
+}
+
+/// Parser for the `Debug` rendering of `regex_radix_tree::Trace<u64>` (its fields are `pub(crate)`):
+/// `Trace { regex: "..", count: N, matched: bool, children: [Trace {..}, ..], values: [n, ..] }`.
+struct DebugParser<'a> {
+    s: &'a [char],
+    pos: usize,
+}
+
+impl<'a> DebugParser<'a> {
+    fn eat(&mut self, lit: &str) -> Option<()> {
+        let l: Vec<char> = lit.chars().collect();
+        if self.s.len() >= self.pos + l.len() && self.s[self.pos..self.pos + l.len()] == l[..] {
+            self.pos += l.len();
+            Some(())
+        } else {
+            None
+        }
+    }
+    fn peek(&self) -> Option<char> {
+        self.s.get(self.pos).copied()
+    }
+    fn string(&mut self) -> Option<String> {
+        self.eat("\"")?;
+        let mut out = String::new();
+        loop {
+            let c = self.peek()?;
+            self.pos += 1;
+            match c {
+                '"' => return Some(out),
+                '\\' => {
+                    let e = self.peek()?;
+                    self.pos += 1;
+                    match e {
+                        'n' => out.push('\n'),
+                        't' => out.push('\t'),
+                        'r' => out.push('\r'),
+                        '0' => out.push('\0'),
+                        'u' => {
+                            self.eat("{")?;
+                            let mut hex = String::new();
+                            while self.peek()? != '}' {
+                                hex.push(self.peek()?);
+                                self.pos += 1;
+                            }
+                            self.pos += 1;
+                            out.push(char::from_u32(u32::from_str_radix(&hex, 16).ok()?)?);
+                        }
+                        other => out.push(other), // \\ \" \'
+                    }
+                }
+                other => out.push(other),
+            }
+        }
+    }
+    fn number(&mut self) -> Option<u64> {
+        let start = self.pos;
+        while self.peek().map(|c| c.is_ascii_digit()).unwrap_or(false) {
+            self.pos += 1;
+        }
+        self.s[start..self.pos].iter().collect::<String>().parse().ok()
+    }
+    fn trace(&mut self) -> Option<Value> {
+        self.eat("Trace { regex: ")?;
+        let regex = self.string()?;
+        self.eat(", count: ")?;
+        let count = self.number()?;
+        self.eat(", matched: ")?;
+        let matched = if self.eat("true").is_some() {
+            true
+        } else {
+            self.eat("false")?;
+            false
+        };
+        self.eat(", children: [")?;
+        let mut children = Vec::new();
+        while self.peek()? != ']' {
+            children.push(self.trace()?);
+            let _ = self.eat(", ");
+        }
+        self.eat("], values: [")?;
+        let mut values = Vec::new();
+        while self.peek()? != ']' {
+            values.push(self.number()?);
+            let _ = self.eat(", ");
+        }
+        self.eat("] }")?;
+        values.sort();
+        Some(json!({"regex": regex, "count": count, "matched": matched, "children": children, "values": values}))
+    }
+}
+
+pub fn parse_trace_debug(s: &str) -> Option<Value> {
+    let cs: Vec<char> = s.chars().collect();
+    let mut p = DebugParser { s: &cs, pos: 0 };
+    let v = p.trace()?;
+    if p.pos == cs.len() {
+        Some(v)
+    } else {
+        None
+    }
 }
 
 fn depth_of(snap: &Value) -> usize {
@@ -893,10 +1031,22 @@ pub fn run(case: &Value) -> Obs {
                 }
                 tags.push("op:retain-mut".to_string());
             }
+            Op::Upd(p, delta) => {
+                tree.update(p, *delta);
+                for e in live.iter_mut() {
+                    if &e.0 == p {
+                        e.2 += *delta;
+                    }
+                }
+                tags.push("op:get_mut-update".to_string());
+            }
             Op::Cache(limit, level) => {
                 ret = json!(tree.cache(*limit, *level));
                 tags.push("op:cache".to_string());
             }
+        }
+        if mode == "trace" {
+            continue;
         }
         if mode == "real" {
             let fresh = tree.snapshot();
@@ -957,6 +1107,18 @@ pub fn run(case: &Value) -> Obs {
             }
             steps.push(step);
         }
+    }
+    if mode == "trace" {
+        let mut out = Vec::new();
+        for h in &hay {
+            match parse_trace_debug(&tree.trace_debug(h)) {
+                Some(t) => out.push(t),
+                None => return Obs::invalid("unparsable Trace debug output"),
+            }
+        }
+        let mut o = Obs::new(Value::Array(out)).trivial(pats.len() < 2);
+        o.tags = tags;
+        return o;
     }
     if mode == "snap" {
         tags.push(format!("depth:{max_depth}"));
